@@ -221,3 +221,18 @@ package fsm
 //@   callsite Flush requires[onlysuccess] isnil(e)
 //@   loop 4 iterensures[store] !isnil(currentStore) ==> s.store == currentStore
 //@   loop 4 iterensures[restored] !isnil(currentStore) && !isnil(e) ==> s.slashTracker == preTxSlashTracker && s.cache.valParams == nil && s.cache.feeParams == nil && (forall k uint64 :: !indom(s.cache.accounts, k)) && (forall k uint64 :: !indom(s.cache.pools, k)) && (s.events != nil ==> s.events.Events == nil)
+
+// ---- C05: authorization -----------------------------------------------------------------------------------
+// an Ethereum-wrapped transaction is accepted only if the transaction re-derived from the signed RLP
+// payload is identical - as a whole, signature wrapper included - to the submitted one
+//@ func (*StateMachine).VerifyRLPBytes
+//@   pure
+//@   ensures[identical] result == nil ==> hashOf(pbBytes(tx)) == hashOf(pbBytes(rlpDecode(bytes(tx.Signature.Signature), tx.Memo == RLPV2Indicator)))
+
+// the sender returned is the address of the key in the signature wrapper, that key's signature over
+// the transaction's sign bytes is verified (directly, queued in the batch verifier, or through the
+// RLP re-derivation), and the address is one of the authorized signers of the message
+//@ func (*StateMachine).CheckSignature
+//@   ensures[sender] result1 == nil ==> !isnil(result0) && addrOf(result0) == keyAddr(bytes(tx.Signature.PublicKey))
+//@   ensures[authorized] result1 == nil ==> exists i int :: 0 <= i && i < len(authorizedSigners) && bytes(authorizedSigners[i]) == addrOf(result0)
+//@   ensures[verified] result1 == nil ==> sigVerifies(bytes(tx.Signature.PublicKey), txSignBytes(tx), bytes(tx.Signature.Signature)) || batchQueued(batchSigVerifier, bytes(tx.Signature.PublicKey), txSignBytes(tx), bytes(tx.Signature.Signature)) || hashOf(pbBytes(tx)) == hashOf(pbBytes(rlpDecode(bytes(tx.Signature.Signature), tx.Memo == RLPV2Indicator)))
